@@ -8,9 +8,11 @@
 #endif
 #include <atomic>
 #include <condition_variable>
+#include <memory>
 #include <mutex>
 #include <thread>
 #include "vlib/ops.h"
+#include "vlib/sigstorm.h"
 #include "ref/genval.h"
 #include <nop/rpc/interface.h>
 #include <nop/rpc/simple_method_receiver.h>
@@ -223,6 +225,38 @@ static uint64_t thread_work(int round, int tid, uint64_t seed, bool yields, TlRe
   return d;
 }
 
+// Objects handed from one thread to another: FdWriter / FdReader constructed by the coordinating thread (whose own errno is then dirtied by an unrelated
+// failing call), used by worker threads on a small blocking pipe under a signal storm (partial and EINTR system calls). A reader / writer must not keep
+// anything that belongs to the constructing thread (its errno location, TLS addresses): the transfer must complete exactly as it does on one thread.
+static void handoff_round(int round, uint64_t seed) {
+  const int K = 3; int fds[K][2]; std::unique_ptr<nop::FdWriter> wr[K]; std::unique_ptr<nop::FdReader> rd[K]; std::vector<uint8_t> data[K], got[K]; std::string werr[K], rerr[K];
+  for (int i = 0; i < K; i++) { if (pipe(fds[i]) != 0) return; shrink_pipe(fds[i][1]); wr[i].reset(new nop::FdWriter(fds[i][1])); rd[i].reset(new nop::FdReader(fds[i][0]));
+    Rng r(hash_combine(seed, (uint64_t)round * 31 + (uint64_t)i)); data[i].resize(20000 + r.below(30000)); for (auto& b : data[i]) b = (uint8_t)r.next(); }
+  ::close(-1);                                   // the constructing thread's errno is now EBADF and stays so while the workers run
+  std::vector<std::thread> ths;
+  for (int i = 0; i < K; i++) {
+    ths.emplace_back([&, i] { SignalStorm storm(pthread_self(), 60); Rng r(hash_combine(seed, 77 + (uint64_t)i)); size_t off = 0; const std::vector<uint8_t>& d = data[i];
+      while (off < d.size()) { size_t k = r.below(4) == 0 ? 1 : 1 + r.below(3000); if (k > d.size() - off) k = d.size() - off;
+        auto st = k == 1 ? wr[i]->Write(d[off]) : wr[i]->Write(d.data() + off, d.data() + off + k);
+        if (!st) { werr[i] = fmt("Write of %zu bytes at offset %zu failed with '%s'", k, off, st.GetErrorMessage()); break; } off += k; }
+      wr[i].reset(); });                        // closes the write end: EOF for the reader
+    ths.emplace_back([&, i] { SignalStorm storm(pthread_self(), 80); Rng r(hash_combine(seed, 99 + (uint64_t)i)); std::vector<uint8_t>& g = got[i]; g.reserve(data[i].size());
+      while (g.size() < data[i].size()) { size_t k = r.below(4) == 0 ? 1 : 1 + r.below(2000); if (k > data[i].size() - g.size()) k = data[i].size() - g.size(); size_t at = g.size(); g.resize(at + k);
+        auto st = k == 1 ? rd[i]->Read(&g[at]) : rd[i]->Read(g.data() + at, g.data() + at + k);
+        if (!st) { g.resize(at); rerr[i] = fmt("Read of %zu bytes at offset %zu failed with '%s'", k, at, st.GetErrorMessage()); break; }
+        if (r.below(3) == 0) usleep(20 + (unsigned)r.below(100)); }
+      rd[i].reset(); });
+  }
+  for (auto& t : ths) t.join();
+  for (int i = 0; i < K; i++) {
+    rep().count("c19_cross_thread_handoff_transfers"); rep().count("c19_cross_thread_handoff_bytes", data[i].size());
+    std::string cd = case_desc("handoff", round, "handoff", J().u("pipe", (uint64_t)i).u("bytes", data[i].size()).str());
+    if (!werr[i].empty()) rep().violation("C19:handoff:write-failed", fmt("an FdWriter constructed by one thread and used by another (blocking pipe, signals without SA_RESTART): %s", werr[i].c_str()), cd);
+    else if (!rerr[i].empty()) rep().violation("C19:handoff:read-failed", fmt("an FdReader constructed by one thread and used by another (blocking pipe, signals without SA_RESTART): %s", rerr[i].c_str()), cd);
+    else if (got[i] != data[i]) rep().violation("C19:handoff:bytes-differ", fmt("the bytes read through a handed-over FdReader differ from the bytes written through a handed-over FdWriter (%zu of %zu)", got[i].size(), data[i].size()), cd);
+  }
+  rep().count("c19_signals_delivered_during_handoff", storm_delivered().exchange(0));
+}
 int vf::engine_main() {
   const Args& a = args(); bool th = a.thorough();
   if (a.prop != "C19") { fprintf(stderr, "mt engine: unknown property %s\n", a.prop.c_str()); return 2; }
@@ -254,6 +288,7 @@ int vf::engine_main() {
     if (!sigpipe_disposition_intact()) { rep().violation("C19:process-signal-disposition-changed", fmt("after a round of %d threads using their own readers/writers the process-wide SIGPIPE disposition is no longer the handler the application installed", N), cd);
       struct sigaction sa; sigemptyset(&sa.sa_mask); sa.sa_handler = &vf_sigpipe_handler; sa.sa_flags = SA_RESTART; sigaction(SIGPIPE, &sa, nullptr); }
     rep().count("c19_signal_disposition_audits");
+    if (round % 8 == 0) handoff_round(round, seed);
     { std::lock_guard<std::mutex> lk(g_fd_fault_mu); if (!g_fd_fault.empty()) { rep().violation("C19:descriptor-table:closed-by-a-foreign-object", fmt("round of %d threads, each with its own FdReader/FdWriter objects: %s", N, g_fd_fault.c_str()), cd); g_fd_fault.clear(); for (auto& o : g_fd_owner) o.store(0); } }
     rep().count("c19_descriptor_claims_audited", g_fd_claims.exchange(0));
     rep().count("c19_rounds"); rep().count("c19_threads_run", (uint64_t)N * 2); rep().count("c19_operation_boundaries", nt);
